@@ -97,7 +97,7 @@ def _check_reuse(case, rec):
       states.append(s)
     H.set_data(d, states)
     mjw.forward(m, d)
-    of = H.overflow(d)
+    of = H.overflow_fwd(d)
     if (of & int(OT.NEFC | OT.NJMAX_NNZ | OT.BROADPHASE | OT.NARROWPHASE | OT.NVMAX)).any():
       rec.inconclusive += 1
       return
